@@ -173,8 +173,16 @@ func buildOverlay(repo, scratch string) (map[string][]byte, map[string]string, e
 	if err != nil {
 		return nil, nil, err
 	}
+	shared, _ := filepath.Glob(filepath.Join(verifDir, "harness", "shared", "*.go"))
 	for dir, name := range pkgDirs {
 		ov[filepath.Join(repo, dir, "zz_verif_vh.go")] = []byte(strings.Replace(string(tmpl), "package PKG", "package "+name, 1))
+		for _, sf := range shared {
+			b, err := os.ReadFile(sf)
+			if err != nil {
+				return nil, nil, err
+			}
+			ov[filepath.Join(repo, dir, "zz_verif_shared_"+filepath.Base(sf))] = []byte(strings.Replace(string(b), "package PKG", "package "+name, 1))
+		}
 	}
 	return ov, pkgDirs, nil
 }
